@@ -322,5 +322,15 @@ def C08 (c : Ctx N) : Clauses :=
 def simClauses [LT N] [DecidableRel (α := N) (· < ·)] (c : Ctx N) : List (String × Clauses) :=
   [("C01", C01 c), ("C02", C02 c), ("C03", C03 c), ("C04", C04 c), ("C05", C05 c), ("C06", C06 c), ("C07", C07 c), ("C08", C08 c)]
 
+/-- `tbl` is a diagram the simulator hands to its caller for `p` and `prog`: the returned one (`stalled = false`) or
+the one carried by the stall error (`stalled = true`). All simulator theorems quantify over these. -/
+def Diagram [LT N] [DecidableRel (α := N) (· < ·)] (p : Proc N) (prog : List (Instr N)) (tbl : List (Util N))
+    (stalled : Bool) : Prop :=
+  (stalled = false ∧ simulate p prog = .done tbl) ∨ (stalled = true ∧ simulate p prog = .stall tbl)
+
+/-- the context the Bool specs read, for a diagram of `simulate` -/
+def ctx (p : Proc N) (prog : List (Instr N)) (tbl : List (Util N)) (stalled : Bool) : Ctx N :=
+  { p := p, prog := prog, tbl := tbl, stalled := stalled }
+
 end Spec
 end ProcSim
